@@ -101,6 +101,8 @@ def run(ctx):
                              extra={"target": f[1], "input_hex": w[0], "arg": int(w[1]) if len(w) > 1 else 0}):
             reported += 1
     ctx.log("search: %d failing signatures (%d not known)" % (len(fails), reported))
+    # the built command line tools on hostile files
+    reported += run_tools(ctx, exe, ctx.n(60, 1500))
     if mism and not reported:
         by_id = {}
         for l in lines:
@@ -117,9 +119,73 @@ def run(ctx):
                        "with allocation <= 512*len+1MiB inside the wall-clock budget, each call in a worker subprocess")
 
 
+def run_tools(ctx, exe, nfiles):
+    """the repository's own command line tools on hostile Annex B byte stream files"""
+    import shutil
+    nal, err = common.go_build_repo_cmd("cmd/mp4ff-nallister", "c16_nallister")
+    if nal is None:
+        raise common.CheckError("cmd/mp4ff-nallister does not build:\n" + err[-1500:])
+    psl, err = common.go_build_repo_cmd("cmd/mp4ff-pslister", "c16_pslister")
+    if psl is None:
+        raise common.CheckError("cmd/mp4ff-pslister does not build:\n" + err[-1500:])
+    d = os.path.join(common.BUILD, "c16files")
+    shutil.rmtree(d, ignore_errors=True)
+    os.makedirs(d)
+    rc, so, e = sh2([exe, "files", "-seed", str(ctx.seed), "-n", str(nfiles), "-dir", d], timeout=600)
+    if rc != 0:
+        raise common.CheckError("harness files failed: " + e[-1000:])
+    runs = 0
+    fails = {}
+    for f in sorted(os.listdir(d)):
+        codec = f.split("_")[0]
+        path = os.path.join(d, f)
+        for site, cmd in (("cmd/mp4ff-nallister", "'%s' -annexb -c %s -sei 1 '%s'" % (nal, codec, path)),
+                          ("cmd/mp4ff-pslister", "'%s' -c %s -v -i '%s'" % (psl, codec, path))):
+            rc, so, e = sh2("ulimit -v %d; exec %s" % (ULIMIT_KB, cmd), timeout=20)
+            runs += 1
+            cls = None
+            if rc == 124:
+                cls = "hang"
+            elif "out of memory" in e or "cannot allocate" in e:
+                cls = "overalloc"
+            elif rc not in (0, 1) or "panic:" in e or "fatal error" in e:
+                cls = "panic"
+            if cls:
+                data = open(path, "rb").read()
+                key = (site, cls)
+                msg = next((l for l in e.splitlines() if "panic" in l or "fatal" in l), e.strip()[:200])
+                if key not in fails or len(data) < len(fails[key][0]):
+                    fails[key] = (data, msg, codec)
+    shutil.rmtree(d, ignore_errors=True)
+    ctx.cov["evaluations"] += runs
+    ctx.notes["tool_runs"] = runs
+    reported = 0
+    for (site, cls), (data, msg, codec) in sorted(fails.items()):
+        if ctx.failing_input(site, cls, data.hex() or "-", msg[:300],
+                             extra={"tool": site, "codec": codec, "file_hex": data.hex()}):
+            reported += 1
+    ctx.log("tools: %d runs of mp4ff-nallister / mp4ff-pslister on %d hostile byte streams, %d failing signatures"
+            % (runs, nfiles, len(fails)))
+    return reported
+
+
 def replay(ctx, path):
     r = json.load(open(path))
     print(json.dumps(r, indent=1))
+    if r.get("kind") == "failing-input" and r.get("tool"):
+        import tempfile
+        name = "c16_nallister" if "nallister" in r["tool"] else "c16_pslister"
+        exe, err = common.go_build_repo_cmd(r["tool"], name)
+        if exe is None:
+            print(err)
+            return 1
+        with tempfile.NamedTemporaryFile(suffix=".bin", dir=common.BUILD, delete=False) as f:
+            f.write(bytes.fromhex(r.get("file_hex", "")))
+        args = "-annexb -c %s -sei 1" % r["codec"] if "nallister" in r["tool"] else "-c %s -v -i" % r["codec"]
+        rc, so, e = sh2("ulimit -v %d; exec '%s' %s '%s'" % (ULIMIT_KB, exe, args, f.name), timeout=30)
+        os.remove(f.name)
+        print("replay on the current tree: rc=%s %s" % (rc, e.strip()[:500]))
+        return 0 if rc in (0, 1) and "panic:" not in e else 1
     if r.get("kind") == "failing-input" and r.get("target"):
         exe, _ = build(ctx)
         rc, so, e = sh2(limited(exe, ["replay", r["target"], r.get("input_hex", "-"), r.get("arg", 0)]), timeout=120)
